@@ -385,20 +385,15 @@ theorem dotTail_noNl (pa : Str) (h : '\n' ∉ pa) : dotTail pa = some pa := by
     intro e; subst e; exact h ha
   simp [dotTail, dropWhile_all notNl pa hall, takeWhile_all notNl pa hall]
 
-/-- `compare_version` splits `<version><patch>` back into its two parts — provided the
-    version has at least two characters or there is no patch -/
-theorem splitOther_render (ds : List Str) (h : WfDs ds) (pa : Str) (hp : PatchShape pa)
-    (hlen : 2 ≤ (render ds).length ∨ pa = []) :
+/-- `compare_version` splits `<version><patch>` back into its two parts (one version character
+    is enough since the repair of D13-onechar) -/
+theorem splitOther_render (ds : List Str) (h : WfDs ds) (pa : Str) (hp : PatchShape pa) :
     splitOther (render ds ++ pa) = (render ds, pa) := by
   have hg : stripDots ((render ds ++ pa).takeWhile isVerChar) = render ds := by
     rw [takeWhile_render_append ds h pa hp.head, stripDots_render ds h]
-  unfold splitOther verPrefix
-  simp only [hg]
-  by_cases h2 : 2 ≤ (render ds).length
-  · simp only [h2, if_true, List.drop_left, dotTail_noNl pa hp.noNl, hp.stripped]
-  · have hpa : pa = [] := by rcases hlen with h' | h'; exact absurd h' h2; exact h'
-    subst hpa
-    simp [h2]
+  have h1 : 1 ≤ (render ds).length := List.length_pos_iff.mpr (render_ne_nil ds h)
+  unfold splitOther verPrefixN
+  simp only [hg, h1, if_true, List.drop_left, dotTail_noNl pa hp.noNl, hp.stripped]
 
 /-! ### Canonical decimal rendering of natural numbers -/
 
@@ -429,14 +424,6 @@ theorem vals_canon (ns : List Nat) : vals (ns.map natToStr) = ns := by
   induction ns with
   | nil => rfl
   | cons n rest ih => simp only [vals, List.map_cons, decVal_natToStr, List.cons.injEq, true_and] at ih ⊢; exact ih
-
-theorem verText_len_two (ns : List Nat) (h : 2 ≤ ns.length) : 2 ≤ (verText ns).length := by
-  match ns, h with
-  | a :: b :: rest, _ =>
-    have := (natToStr_isNum a).1
-    have hl : 0 < (natToStr a).length := List.length_pos_iff.mpr this
-    simp only [verText, render, List.map_cons, join, List.append_assoc, List.singleton_append, List.length_append, List.length_cons]
-    omega
 
 end Version
 end SshAudit
